@@ -468,6 +468,18 @@ class invariant:  # pylint: disable=invalid-name
                 )
             )
 
+        # The instance is supplied as the keyword argument ``self``: a variable or a positional-only parameter
+        # of that name would never receive it (``**self`` would receive a dictionary, which is always truthy).
+        self_parameter = inspect.signature(condition).parameters.get("self", None)
+        if self_parameter is not None and self_parameter.kind not in (
+            inspect.Parameter.POSITIONAL_OR_KEYWORD,
+            inspect.Parameter.KEYWORD_ONLY,
+        ):
+            raise ValueError(
+                "Expected the argument 'self' of an invariant condition to be a parameter "
+                "which can be supplied by keyword, but got: {}".format(self_parameter)
+            )
+
     def __call__(self, cls: ClassT) -> ClassT:
         """
         Decorate each of the public methods with the invariant.
